@@ -252,9 +252,14 @@ func sweepCluster(rep *core.Report, sel Select, c Case, l sim.Layout) {
 		if streamBytes <= 0 {
 			core.Infra("faults: no stream bytes were delivered in the fault-free run of %s", c.Key())
 		}
-		stride, edge := 997, 24
+		stride, edge, most := 997, 24, 60
 		if sel.Thorough {
-			stride, edge = 53, 48
+			stride, edge, most = 53, 48, 300
+		}
+		// (a block-straddling layout makes the snapshot a megabyte: the number of interior cut points is bounded,
+		// the stride grows with the stream)
+		if n := (streamBytes - 2*edge) / most; n > stride {
+			stride = n | 1
 		}
 		seen := map[int]bool{}
 		var offs []int
